@@ -103,14 +103,22 @@ def permutations(tier, seed):
     rng = random.Random(sub_seed(seed, "perm"))
     hs = []
     n_sets = 6 if tier == "quick" else 60
-    for k in range(n_sets):
+    den = 2
+    mid = 10
+    # price ties among orders accepted in the same step (ids 0, 1, 2 ... of a fresh market), swept by one aggressor
+    fixed = [[(True, False, 10 * den, 1), (True, False, 11 * den, 1), (True, False, 10 * den, 1), (False, False, 9 * den, 3)],
+             [(False, False, 10 * den, 1), (False, False, 9 * den, 1), (False, False, 10 * den, 1), (True, False, 11 * den, 3)],
+             [(True, False, 10 * den, 2), (True, False, 10 * den, 1), (True, False, 12 * den, 1), (False, True, 0, 4)],
+             [(False, True, 0, 1), (False, True, 0, 1), (False, False, 9 * den, 1), (True, False, 10 * den, 3)]]
+    for k in range(n_sets + len(fixed)):
         size = rng.choice([3, 4]) if tier == "quick" else rng.choice([3, 4, 5])
-        den = 2
-        mid = 10
         multiset = []
         for _ in range(size):
             mo = rng.random() < 0.2
             multiset.append((rng.random() < 0.5, mo, (mid + rng.randint(-2, 2)) * den, rng.randint(1, 3)))
+        if k >= n_sets:
+            multiset = fixed[k - n_sets]
+            size = len(multiset)
         for perm in itertools.permutations(range(size)):
             s = BookSession(tick=1.0, den=den, exact=True, p0=mid * den)
             pre_tick = rng.random() < 0.5
@@ -138,7 +146,7 @@ def heap_stress(tier, seed):
     early or trip their self-check (C03)."""
     rng = random.Random(sub_seed(seed, "heap-stress"))
     hs = []
-    for i in range(500 if tier == "quick" else 6000):
+    for i in range(800 if tier == "quick" else 8000):
         n = rng.randint(7, 12)
         buy_side = rng.random() < 0.5
         den, mid = 2, 40
@@ -154,8 +162,28 @@ def heap_stress(tier, seed):
                 best = min(ids)
                 cand = [x for x in ids if x != best]
                 victim = rng.choice(cand)
+                # adversarial choice: a slot of the queue whose parent is WORSE than the queue's last element - an
+                # implementation that moves the last element into the hole must then move it up as well
+                q = (s.m.buy_order_book if buy_side else s.m.sell_order_book).priority_queue
+                try:
+                    slots = [i for i in range(1, len(q) - 1) if q[-1] < q[(i - 1) // 2]]
+                except Exception:  # noqa: BLE001
+                    slots = []
+                if slots and rng.random() < 0.7:
+                    oid = q[rng.choice(slots)].order_id
+                    hit = [x for x in cand if x[1] == oid]
+                    if hit:
+                        victim = hit[0]
                 s.cancel(victim[1])
                 ids.remove(victim)
+            if rng.random() < 0.5:
+                # then the best orders go one after the other: what the quotes show depends on the queue having been repaired
+                for _ in range(rng.randint(1, 3)):
+                    if len(ids) <= 4:
+                        break
+                    best = min(ids)
+                    s.cancel(best[1])
+                    ids.remove(best)
             k = rng.randint(2, len(ids) - 1)
             off_k = sorted(ids)[k - 1][0]
             lvl = mid - off_k if buy_side else mid + off_k
@@ -192,12 +220,12 @@ def comparison_lines():
         for a in objs:
             rows = {k: [] for k in mats}
             for b in objs:
-                rows["lt"].append(int(bool(a < b)))
-                rows["gt"].append(int(bool(a > b)))
-                rows["eq"].append(int(bool(a == b)))
-                rows["ne"].append(int(bool(a != b)))
-                rows["le"].append(int(bool(a <= b)))
-                rows["ge"].append(int(bool(a >= b)))
+                for key, fn in (("lt", lambda x, y: x < y), ("gt", lambda x, y: x > y), ("eq", lambda x, y: x == y),
+                                ("ne", lambda x, y: x != y), ("le", lambda x, y: x <= y), ("ge", lambda x, y: x >= y)):
+                    try:
+                        rows[key].append(int(bool(fn(a, b))))
+                    except Exception:  # noqa: BLE001 - a comparison of two accepted orders of one side must not raise
+                        rows[key].append(2)
             for k in mats:
                 mats[k].append(rows[k])
         doc = {"buy": buy, "orders": [list(o) for o in orders]}
